@@ -15,9 +15,9 @@ from tools import vlib
 from tools.vlib import Outcome, sx
 
 MANIFEST = {
-    "level_text": "Coq theorems (Properties/C04.v, no axioms) about a Gallina transcription of is_tauri_parameter_type, channel extraction (incl. the repaired ipc::Channel), Option detection, compute_parameter_name over serde-rename-rule's apply_to_field behind the call-site guard of apply_naming_convention, and the five template shapes that decide the second argument of invoke, for every parameter list, every name over [a-z0-9_], all eight configured cases and both modes: generation never panics; outside four narrow recorded classes the (key, omittable) pairs reaching invoke are a permutation of Tauri's (one per non-injected parameter incl. channels, named by heck's lowerCamelCase / snake_case rule or the configured serde rule, omittable iff Option), Zod mode validates exactly the value keys and re-attaches exactly the channel keys, both modes deliver the same entries (unconditionally), and the guarded camelCase equals Tauri's word rule. Tied to /repo on every run: both generators run on generated commands, the written files are read back by the extracted observation and compared with the model and the spec.",
+    "level_text": "Coq theorems (Properties/C04.v, no axioms) about a Gallina transcription of is_tauri_parameter_type, channel extraction (incl. the repaired ipc::Channel and Request<'_>), Option detection, compute_parameter_name over serde-rename-rule's apply_to_field behind the call-site guard of apply_naming_convention, and the five template shapes that decide the second argument of invoke, for every parameter list, every name over [a-z0-9_], all eight configured cases and both modes: generation never panics; outside three narrow recorded classes the (key, omittable) pairs reaching invoke are a permutation of Tauri's (one per non-injected parameter incl. channels, named by heck's lowerCamelCase / snake_case rule or the configured serde rule, omittable iff Option), Zod mode validates exactly the value keys and re-attaches exactly the channel keys, both modes deliver the same entries (unconditionally), and the guarded camelCase equals Tauri's word rule. Tied to /repo on every run: both generators run on generated commands, the written files are read back by the extracted observation and compared with the model and the spec.",
     "design_ref": "DESIGN.md section 5 C04, section 11 camel_agrees",
-    "level_note": "The model represents the generated module by what the key set depends on (schema keys, Params declaration, call-site shape), not by its text; the reading of the real files (Spec/C04Obs.v, token level, tolerant of non-identifier keys) is trusted, not proved against a TypeScript grammar. Commands carrying #[serde(..)] attributes on the function or its parameters (a mechanism of the tool, rejected by rustc/Tauri) are outside the model. Four known classes are premises of C04_keys/C04_optional (bare Window, unqualified Request, rename_all in the command attribute, underscore-only names under camelCase); C04-2 (ipc::Channel) and C04-5 (panic on underscore-only names) are repaired and their witnesses are regression cases.",
+    "level_note": "The model represents the generated module by what the key set depends on (schema keys, Params declaration, call-site shape), not by its text; the reading of the real files (Spec/C04Obs.v, token level, tolerant of non-identifier keys) is trusted, not proved against a TypeScript grammar. Commands carrying #[serde(..)] attributes on the function or its parameters (a mechanism of the tool, rejected by rustc/Tauri) are outside the model. Three known classes are premises of C04_keys/C04_optional (bare Window, rename_all in the command attribute, underscore-only names under camelCase); C04-2 (ipc::Channel), C04-3 (Request<'_> / ipc::Request<'_>) and C04-5 (panic on underscore-only names) are repaired and their witnesses are regression cases. A Request that is neither fully qualified nor written with its lifetime is outside the domain (indistinguishable from a user type).",
     "technique": "Rocq/Coq proof over hand-written model + correspondence check (extracted OCaml vs Rust harness and real CLI)"
 }
 
@@ -33,8 +33,8 @@ ASSUMPTIONS = ["z.object(..).safeParse strips keys that are not in the schema (Z
                "a key of the Params type is omittable by the caller iff it is declared with ? (interface) or its schema ends in .optional() (z.infer)"]
 
 CASES8 = ["lowercase", "UPPERCASE", "PascalCase", "camelCase", "snake_case", "SCREAMING_SNAKE_CASE", "kebab-case", "SCREAMING-KEBAB-CASE"]
-KF_IDS = ["C04-1", "C04-3", "C04-4", "C04-6"]                     # order of ExC04.c04_classes
-KF_PRIORITY = [3, 2, 1, 0]                                         # underscore-only name first, then macro case, ...
+KF_IDS = ["C04-1", "C04-4", "C04-6"]                              # order of ExC04.c04_classes
+KF_PRIORITY = [2, 1, 0]                                            # underscore-only name first, then macro case, ...
 KEYWORDS = {"as", "do", "fn", "if", "in", "mod", "mut", "pub", "ref", "use", "box", "dyn", "for", "let", "try", "type", "self",
             "impl", "loop", "move", "enum", "else", "true", "false", "super", "crate", "async", "await", "const", "match", "priv",
             "static", "struct", "trait", "unsafe", "where", "while", "yield", "final", "macro", "break", "return", "extern",
@@ -65,6 +65,8 @@ INJECTED_TYPES = [
     ("WebviewWindow", P(["WebviewWindow"])), ("tauri::WebviewWindow", P(["tauri", "WebviewWindow"])),
     ("WebviewWindow<R>", P(["WebviewWindow"], ["T"])), ("tauri::WebviewWindow<R>", P(["tauri", "WebviewWindow"], ["T"])),
     ("tauri::ipc::Request<'_>", P(["tauri", "ipc", "Request"], ["L"])), ("tauri::ipc::Request<'a>", P(["tauri", "ipc", "Request"], ["L"])),
+    ("Request<'_>", P(["Request"], ["L"])), ("ipc::Request<'_>", P(["ipc", "Request"], ["L"])), ("Request<'a>", P(["Request"], ["L"])),
+    ("tauri::ipc::Request", P(["tauri", "ipc", "Request"])),
 ]
 CHANNEL_TYPES = [
     ("Channel<String>", P(["Channel"], ["T"])), ("Channel<Item>", P(["Channel"], ["T"])), ("Channel<i32>", P(["Channel"], ["T"])),
@@ -74,7 +76,6 @@ CHANNEL_TYPES = [
 ]
 KF_TYPES = {
     0: [("Window", P(["Window"]))],
-    1: [("Request<'_>", P(["Request"], ["L"])), ("ipc::Request<'_>", P(["ipc", "Request"], ["L"]))],
 }
 # outside the quantifier: faithfulness of the model only
 ODD_TYPES = [
@@ -83,6 +84,8 @@ ODD_TYPES = [
     ("State<'_>", P(["State"], ["L"])), ("Window<>", P(["Window"], [])), ("Channel<'a, String>", P(["Channel"], ["L", "T"])),
     ("Webview", P(["Webview"])), ("tauri::State", P(["tauri", "State"])), ("my::Channel<String>", P(["my", "Channel"], ["T"])),
     ("tauri::ipc::Channel", P(["tauri", "ipc", "Channel"])), ("tauri::x::AppHandle", P(["tauri", "x", "AppHandle"])),
+    ("Request", P(["Request"])), ("ipc::Request", P(["ipc", "Request"])), ("Request<Item>", P(["Request"], ["T"])),
+    ("Request<'a, Item>", P(["Request"], ["L", "T"])), ("my::Request<'_>", P(["my", "Request"], ["L"])),
 ]
 RAW_KEYWORDS = ["type", "match", "ref", "loop", "in", "fn", "async", "move", "box", "dyn", "use", "mod"]
 WORDS = ["user", "id", "name", "x", "a", "b", "on", "ev", "data", "item", "count", "b1", "v2", "is", "ok", "path", "q", "max", "len"]
@@ -130,11 +133,11 @@ def random_case(rng, kf_class=None):
         params.append((gen_name(rng, used), t))
     default_case = rng.choice([None, None, "camelCase", "camelCase"] + CASES8)
     macro = None
-    if kf_class in (0, 1):
+    if kf_class == 0:
         params.insert(rng.randint(0, len(params)), (gen_name(rng, used), rng.choice(KF_TYPES[kf_class])))
-    elif kf_class == 2:
+    elif kf_class == 1:
         macro = "snake_case"
-    elif kf_class == 3:
+    elif kf_class == 2:
         default_case = rng.choice([None, "camelCase"])
         params.insert(rng.randint(0, len(params)), (rng.choice(["__", "___", "____"]), rng.choice(VALUE_TYPES + CHANNEL_TYPES)))
     else:
@@ -426,7 +429,7 @@ def run(rep):
     distribution(rep, "random", main)
     rep.add("random", evaluate(main))
     nk = 400 if thorough else 40
-    inside = [random_case(rng, k) for k in range(4) for _ in range(nk)]
+    inside = [random_case(rng, k) for k in range(3) for _ in range(nk)]
     distribution(rep, "random-inside-classes", inside)
     rep.add("random-inside-classes", evaluate(inside))
     ncli = 3000 if thorough else 120
